@@ -267,7 +267,7 @@ func (e *Engine) inline(st *State, fn *ssa.Function, args []Value, bindings []Va
 	if m == nil {
 		return nil, nil
 	}
-	out := &State{pc: m.pc, env: st.env, heap: m.heap, defers: st.defers}
+	out := &State{pc: m.pc, env: st.env, heap: m.heap, defers: st.defers, derived: m.derived}
 	// env of the caller must be private to this path from now on
 	out.env = make(map[ssa.Value]Value, len(st.env)+1)
 	for k, v := range st.env {
